@@ -34,7 +34,7 @@ if ROOT not in sys.path:
 TYPE_OF = [1, 2, 3, 4, 5, 6, 7, 255]
 FINDINGS = os.environ.get('VERIF_C03_FINDINGS', os.path.join(HERE, 'findings'))
 CONTINUE = os.environ.get('VERIF_C03_FUZZ_CONTINUE', '') == '1'
-STATS_EVERY = int(os.environ.get('VERIF_C03_STATS_EVERY', '2000'))
+STATS_EVERY = int(os.environ.get('VERIF_C03_STATS_EVERY', '500'))
 
 
 def split_input(data: bytes, table_size: int) -> tuple[int, int, bytes]:
